@@ -415,8 +415,22 @@ def case_term(c):
             return None
     else:
         exp = f'(Err {encode.exn_term(x)})'
+    try:
+        calls = '(Some [' + '; '.join(call_term(e) for e in c.log if e[0] in ('init', 'strctor')) + '])'
+    except TypeError:
+        calls = 'None'
     return ('{| lc_oracle := ' + encode.oracle_term(doc_scalars(c)) + '; lc_specs := ' + m.reg_term()
-            + '; lc_type := ' + m.ty_term(c.tyspec) + '; lc_doc := ' + doc + '; lc_expect := ' + exp + ' |}')
+            + '; lc_type := ' + m.ty_term(c.tyspec) + '; lc_doc := ' + doc + '; lc_expect := ' + exp
+            + '; lc_calls := ' + calls + ' |}')
+
+
+def call_term(e):
+    if e[0] == 'init':
+        _, defining, actual, kw = e
+        return (f'(CallInit {coq_ustr(actual)} [' +
+                '; '.join(f'({coq_ustr(k)}, {encode.value_term(v)})' for k, v in kw.items()) + '])')
+    _, defining, actual, text = e
+    return f'(CallStr {coq_ustr(actual)} {coq_ustr(text)})'
 
 
 def eval_cases(name, terms, per_shard=150):
